@@ -1,13 +1,14 @@
 import KtVerif.Driver
 /-! Line-protocol driver: one request per line on stdin, one answer per line on stdout. -/
 
-partial def loop (h : IO.FS.Stream) (out : IO.FS.Stream) : IO Unit := do
+partial def loop (h : IO.FS.Stream) (out : IO.FS.Stream) (c : KT.Driver.Cache) : IO Unit := do
   let line ← h.getLine
   if line.isEmpty then return ()
-  out.putStrLn (KT.Driver.answer line)
-  loop h out
+  let (c, a) := KT.Driver.answer c line
+  out.putStrLn a
+  loop h out c
 
 def main : IO Unit := do
   let out ← IO.getStdout
-  loop (← IO.getStdin) out
+  loop (← IO.getStdin) out {}
   out.flush
